@@ -10,6 +10,7 @@ from the cost model (`Config.inst_wf`, using C07's floor).
 -/
 import Compass.Proofs.SearchTree
 import Compass.Proofs.Instance
+import Compass.Proofs.SearchRoute
 
 namespace Compass
 namespace C01
@@ -110,6 +111,31 @@ theorem config_route_walk (c : Config α) (hadj : c.AdjConsistent) (source t : N
     simp only [Except.ok.injEq] at h
     refine ⟨route, ?_, hne, h1, h2, h3, h5⟩
     rw [← h]; simp [hr]
+
+
+/-- Edge-oriented queries (origin and destination given as edges; forward search, as the application
+always runs them): the returned route starts with the origin edge, ends with the destination edge,
+is contiguous in graph orientation and uses no edge twice — for adjacent and non-adjacent origin /
+destination edges alike, self loops included. -/
+theorem edge_oriented_route_walk (c : Config α) (hadj : c.AdjConsistent) (hfwd : c.reverse = false)
+    (source tgt : Nat) (sched : List Nat) (r : AlgResult α) (hne : source ≠ tgt)
+    (h : c.runEdge source (some tgt) sched = .ok r) :
+    ∃ route, r.routes = [route] ∧ 2 ≤ route.length ∧
+      (∃ b, route.head? = some b ∧ b.edge = source) ∧
+      (∃ b, route.getLast? = some b ∧ b.edge = tgt) ∧
+      (∀ i (hi : i + 1 < route.length), c.inst.keyV route[i].edge = c.inst.termV route[i + 1].edge) ∧
+      (∀ b ∈ route, c.inst.termV b.edge = b.terminal) ∧
+      (route.map (·.edge)).Nodup :=
+  SearchRoute.edge_oriented_route_walk c hadj hfwd source tgt sched r hne h
+
+/-- Destination-less edge-oriented search: every tree entry's edge joins its parent to its vertex
+(the origin edge's own entry, stored at the origin edge's head, included). -/
+theorem edge_oriented_tree_entry_joins (c : Config α) (hadj : c.AdjConsistent) (hfwd : c.reverse = false)
+    (source : Nat) (sched : List Nat) (r : AlgResult α)
+    (h : c.runEdge source none sched = .ok r) :
+    ∀ tree ∈ r.trees, ∀ v b, tree v = some b →
+      c.inst.keyV b.edge = v ∧ c.inst.termV b.edge = b.terminal :=
+  SearchRoute.runEdge_none_tree_joins c hadj hfwd source sched r h
 
 /-! ### Non-vacuity: a concrete instance with a parallel edge and a self loop meets the hypotheses,
 and the theorem applies to an actual run (see `SearchTree.Example`). -/
